@@ -1,5 +1,6 @@
 import PytmeModel.Model.C01
 import PytmeModel.Proofs.Circ
+import PytmeModel.Proofs.C01Field
 import Mathlib.Algebra.BigOperators.Group.Finset.Basic
 import Mathlib.Algebra.Order.Ring.Defs
 import Mathlib.Algebra.Order.Field.Basic
@@ -182,5 +183,33 @@ theorem Win.var_formula_h (hn : W.n ≠ 0) :
   Win.var_formula_a ⟨W.ms, W.w, W.h, W.h⟩ hn
 
 end win
+
+section ordops
+variable {α : Type} [Field α] [LinearOrder α] [IsStrictOrderedRing α]
+
+/-- scalar operations of an ordered field with the real comparison -/
+def ordOps (sqrt : α → α) (eps : α) : Ops α :=
+  { zero := 0, one := 1, add := (· + ·), sub := (· - ·), mul := (· * ·), div := (· / ·),
+    sqrt := sqrt, lt := fun a b => decide (a < b), ofNat := fun n => (n : α), eps := eps }
+
+/-- what the square root has to satisfy (true of the real one) -/
+structure SqrtOk (sqrt : α → α) : Prop where
+  nonneg : ∀ x, 0 ≤ sqrt x
+  sq : ∀ x, 0 ≤ x → sqrt x * sqrt x = x
+
+theorem boxSum_ord (sqrt : α → α) (eps : α) : ∀ (ms : List Nat) (F : List Nat → α),
+    boxSum (ordOps sqrt eps) ms F = sumShape ms F
+  | [], F => rfl
+  | m :: ms, F => by
+    simp only [boxSum, sumShape]
+    have : ∀ i, boxSum (ordOps sqrt eps) ms (fun idx => F (i :: idx)) = sumShape ms (fun idx => F (i :: idx)) :=
+      fun i => boxSum_ord sqrt eps ms _
+    simp only [this]
+    exact foldl_range_add m _
+
+theorem max0_of_nonneg (sqrt : α → α) (eps x : α) (hx : 0 ≤ x) : (ordOps sqrt eps).max0 x = x := by
+  simp [Ops.max0, ordOps, not_lt.mpr hx]
+
+end ordops
 
 end Pm.C03
